@@ -126,6 +126,43 @@ async fn run_layout(run: usize, ups: &[Value], lay: &Value, ckpt_l: u64, wal_fil
             Err(e) => json!({"ok": false, "fold": [], "err": e.to_string()}),
         };
     }
+    // every entry point of recovery must agree, on the intact image ...
+    match rm.recover_with_progress(|_| {}).await {
+        Ok(rs) => rec["fold_progress"] = fold_state(rs.checkpoint_state, &rs.deltas),
+        Err(e) => {
+            rec["err"] = json!(format!("recover_with_progress: {e}"));
+            return rec;
+        }
+    }
+    // ... and over ONE damaged download (of a segment, or of the checkpoint): fail, or return everything
+    let mut reads = Vec::new();
+    for what in ["get_seg", "get_ckpt"] {
+        for entry in ["recover", "recover_with_progress", "recover_with_wal"] {
+            let sc = crate::stream::ScriptedObjectStore::new(false);
+            {
+                let mut g = sc.inner.lock().unwrap();
+                if let Ok(lst) = store.list(PREFIX, None).await {
+                    for o in lst.objects {
+                        if let Ok(d) = store.get(&o.key).await {
+                            g.objs.insert(o.key.clone(), d);
+                        }
+                    }
+                }
+                g.faults.push((0, what.into(), "corrupt".into()));
+            }
+            let rm2 = RecoveryManager::new(sc.clone(), PREFIX, 1);
+            let r = match entry {
+                "recover" => rm2.recover().await,
+                "recover_with_progress" => rm2.recover_with_progress(|_| {}).await,
+                _ => rm2.recover_with_wal(&rot).await,
+            };
+            reads.push(match r {
+                Ok(rs) => json!({"entry": entry, "what": what, "wal": entry == "recover_with_wal", "ok": true, "fold": fold_state(rs.checkpoint_state, &rs.deltas)}),
+                Err(e) => json!({"entry": entry, "what": what, "wal": entry == "recover_with_wal", "ok": false, "fold": [], "err": e.to_string()}),
+            });
+        }
+    }
+    rec["corrupt_reads"] = json!(reads);
     match rm.recover_with_wal(&rot).await {
         Ok(rs) => {
             rec["fold_wal"] = fold_state(rs.checkpoint_state.clone(), &rs.deltas);
